@@ -11,8 +11,7 @@ from ..extract import e2
 
 PERMIT_EXEC = ("EXECUTE", "PERMIT")      # "executor permits"
 TTL = 300_000_000
-FINDING = "C07-gate-reassigned-cache"
-FINDING_CLAUSE = "unblocked_only_if_configured_gate_satisfied_by_original"
+REASSIGNED_CLAUSE = "unblocked_only_if_configured_gate_satisfied_by_original"   # (finding C07-gate-reassigned-cache: fixed)
 UNRENDERABLE_CLAUSE = "agent_exception_yields_a_blocked_reply"     # (finding C07-unprintable-agent-exception: fixed)
 HOOKS = ["none", "ok", "raise"]
 VERDICT_FIELDS = ("action", "success", "blocked", "token", "hash_ok", "issuer_ok")
@@ -65,8 +64,8 @@ class C07(Prop):
         "callers do not mutate LoopResult objects (the cache stores the very object it returned) and do not re-enter the loop",
         "an agent's BaseException that is not an Exception (KeyboardInterrupt, SystemExit, CancelledError) passes through "
         "run(): nothing comes back, nothing passes",
-        "public attributes may be re-assigned on the live loop (set op); re-assigning gate_logic is the trigger of the open "
-        "finding C07-gate-reassigned-cache",
+        "public attributes may be re-assigned on the live loop (set op), gate_logic included: a reply cached under another "
+        "gate logic is not served (c07_configured_gate)",
         "'assessor permits' = verdict PERMIT; 'executor permits' = verdict EXECUTE or PERMIT (DESIGN.md C07)",
     ]
     trusted_modelled = ["modelled, not verified: CoherentFeedForwardLoop.run/_apply_gate_logic/_check_cache/"
@@ -75,7 +74,6 @@ class C07(Prop):
 
     def setup(self, ctx):
         self.impl = cffl.Impl()
-        self._finding_only = {}
 
     def extract(self, ctx):
         return e2.extract()
@@ -296,6 +294,17 @@ class C07(Prop):
                                            f"run {NEAR_BASE + b} EXECUTE PERMIT"],
                                  "note": "two DISTINCT prompts that are equal under Unicode NFC / NFKC, case folding or white-space "
                                          "normalisation: each is answered from its own verdicts, each token is bound to its own hash"})
+        regate = []
+        for g1, g2 in itertools.product(GATES, repeat=2):
+            for z, y in itertools.product(["EXECUTE", "PERMIT", "BLOCK", "FAILURE", "DEFER"], ["PERMIT", "BLOCK", "EXECUTE", "DEFER"]):
+                regate.append({"lines": [cfg_line(g1, False, 5, 60_000_000, True, TTL), f"run 1 {z} {y}", f"set gate {g2}",
+                                         f"run 1 {z} {y}", "run 1 BLOCK BLOCK", f"set gate {g1}", "run 1 DEFER DEFER",
+                                         f"run 2 {z} {y}", "set cache 0", f"set gate {g2}", "set cache 1", "run 2 BLOCK BLOCK"],
+                               "note": "gate_logic re-assigned on the live loop between a request and its repeats: an un-blocked "
+                                       "reply always goes back to verdicts that satisfy the logic configured at that moment"})
+        spaces.append({"name": "gate logic re-assigned on the live loop: 6 x 6 (configured, re-assigned) logics x 5 x 4 verdict pairs, "
+                               "request / re-assign / repeat twice / assign back / repeat; re-assignment while the cache is off",
+                       "cases": regate})
         spaces.append({"name": "ordered pairs of distinct prompts equal under NFC / NFKC / case / white-space / invisible-character "
                                "canonicalisation x {AND, OR}: a permitted request, then its near-equal twin with blocking "
                                "verdicts, then both again", "cases": near})
@@ -359,8 +368,9 @@ class C07(Prop):
                     out.append(Violation("cached_verdict_identical", " or ".join(str(c[0]) for c in cands), str(verdict), idx))
                 elif not o.blocked and not any(c[0] == verdict and criterion(gate, c[1], c[2]) for c in cands):
                     # clause 1 read with the gate logic configured NOW: the verdicts this cached reply goes back to do
-                    # not satisfy it (possible only after `loop.gate_logic = ...` on the live loop: open finding)
-                    out.append(Violation(FINDING_CLAUSE, f"blocked (gate now {gate}; the original's verdicts were "
+                    # not satisfy it (possible only after `loop.gate_logic = ...` on the live loop: the defect of the
+                    # repaired finding C07-gate-reassigned-cache)
+                    out.append(Violation(REASSIGNED_CLAUSE, f"blocked (gate now {gate}; the original's verdicts were "
                                          + " or ".join(f"executor={c[1]} assessor={c[2]}" for c in cands if c[0] == verdict) + ")",
                                          raw, idx))
             else:
@@ -436,18 +446,7 @@ class C07(Prop):
                     out.append(Violation("on_permit_only_for_a_request_that_passes",
                                          f"no on_permit call (gate={gate} executor={z} assessor={y})", raw, idx))
                 permit_calls = o.permit_hook_calls
-        known = {FINDING_CLAUSE: FINDING}
-        self._finding_only[tuple(case["lines"])] = (
-            sorted({known[v.clause] for v in out}) if out and all(v.clause in known for v in out) else [])
         return out
-
-    def trigger(self, case):
-        """open finding C07-gate-reassigned-cache: the gate logic is re-assigned on a live loop (`set gate`) and every
-        violation of the case is a cached reply judged by the NEW logic"""
-        only = self._finding_only.get(tuple(case["lines"])) or []
-        if FINDING in only and any(l.startswith("set gate ") for l in case["lines"]):
-            return FINDING
-        return None
 
     def _oracle_reenter(self, info, idx, out):
         """every reply of a nest of overlapping requests is judged by the verdicts ITS OWN agents returned for it"""
